@@ -125,6 +125,22 @@ def check_circuit(case):
     same(got, numeric_derivative(evaluate, env, var),
          "gradient-vs-numeric-reference", common.show(d),
          dict(atol=1e-5, rtol=1e-5))
+    # a gradient is a function of the circuit, the symbol and the flag, not
+    # of the gradients taken before: the other kind of gradient of the same
+    # object, then this kind again, against those of a fresh copy
+    def grad_of(circuit, flag):
+        try:
+            return circuit.grad(x) if flag else circuit.grad(x, mixed=False)
+        except NotImplementedError:
+            return NotImplementedError
+    fresh = specs.build(spec)
+    for flag in (not mixed, mixed):
+        second, first = grad_of(d, flag), grad_of(fresh, flag)
+        require(second == first and type(second) is type(first),
+                "C15:gradient-depends-on-earlier-gradients",
+                lambda: "{} d/d{} (mixed={}) after another gradient: {} "
+                "instead of {}".format(common.show(d), var, flag, second,
+                                       first)[:1200])
     nonlinear = any(e not in ("u", "v") for e in occ)
     return dict(nt=len(occ) >= 2 and nonlinear, labels=[
         "mixed" if mixed else "pure", "occ%d" % min(len(occ), 4)],
